@@ -70,7 +70,9 @@ CONTEXTS = ("top", "in_if", "in_else", "in_while", "in_for", "in_nested_fn", "in
             "in_nested_fn_under_for", "in_nested_nested_fn", "in_callee", "in_method",
             # struct methods that are first reached through a pure *probe* (iterable unpacking
             # looks for __iter__, callable(x) for __call__) and only then used
-            "in_iter_method_unpacked", "in_call_method_probed")
+            "in_iter_method_unpacked", "in_call_method_probed",
+            # unreachable code: after a jump at the top level and inside nested blocks
+            "dead_after_return", "dead_in_if_after_return", "dead_in_while_after_break")
 
 # the "fault": an ordinary mistake, by the pipeline stage at which it is reported
 FAULTS = {
@@ -132,6 +134,12 @@ def program(kind: str, ctx: str, fault=None) -> str:
         lines = ["k = 0", "while k < 2:"] + indent(body, 4) + ["    k += 1"]
     elif ctx == "in_for":
         lines = ["for j in range(2):"] + indent(body, 4)
+    elif ctx == "dead_after_return":
+        lines = ["return a"] + body
+    elif ctx == "dead_in_if_after_return":
+        lines = ["if a > 0:", "    return a"] + indent(body, 4)
+    elif ctx == "dead_in_while_after_break":
+        lines = ["while a > 0:", "    break"] + indent(body, 4)
     elif ctx == "in_else":
         lines = ["if a > 0:", "    pass", "else:"] + indent(body, 4)
     elif ctx == "in_nested_fn":
@@ -180,6 +188,8 @@ EXCLUDED: dict[tuple, str] = {}
 
 
 def usable(kind: str, ctx: str, fault) -> bool:
+    if fault is not None and ctx.startswith("dead_"):
+        return False      # a second mistake in unreachable code need not be reported
     if fault is None:
         return (kind, ctx, None, None) not in EXCLUDED
     fk, pos = fault
